@@ -3,7 +3,7 @@ PROP = dict(
     gens=[],
     lake=['IcyVerif.Props.C01'],
     ns='IcyVerif.C01',
-    theorems=['no_panic_wrapped_partial', 'no_panic_partial', 'overflow_guard_needs_2_30_rows', 'errors_recoverable', 'reachable_good'],
+    theorems=['no_panic_bytes_partial', 'petscii_reverse_no_overflow', 'no_panic_wrapped_partial', 'no_panic_partial', 'overflow_guard_needs_2_30_rows', 'errors_recoverable', 'reachable_good'],
     harness='c01',
     harness_timeout=1500,
     design='DESIGN.md §4 C01, §3.2 TermGeo',
